@@ -10,6 +10,8 @@ parameters are float (numpy silently truncates on `=` and raises on `+=` into an
 parameters, and utils.sampling_matrix is the same A; (RANGE) (low, high) tuples reach
 rng.uniform(low, high, size=p) with p the number of variables; (NONE) each intervention block is guarded
 by the truthiness of its own argument, so None / {} never reach .items().
+Also decided: (HISTORY) the result reads no attribute of the model beyond W / means / variances / p that any method other than the
+constructor writes, and sample writes no attribute (no caches keyed by part of the arguments).
 Not decided: floating-point error of the inverse; that numpy's uniform respects its bounds.
 """
 import itertools
